@@ -12,7 +12,8 @@ row operation, AFTER triggers, per affected row.
                   `append(triggers[i:i+1], orderedTriggers[j:]...)` writes into the backing array of
                   the input slice whenever `1 + len(tail) ≤ cap(triggers) - i`, and the `range` loop
                   then reads the overwritten elements
-* `fire`        – per-statement trace of trigger executions (Spec and, with `orderImpl`, Impl)
+* `execDml`     – one DML statement with audit-table triggers: per-row firing, the OLD/NEW values each
+                  trigger sees (values as written vs. values converted to the column type), what is stored
 -/
 namespace Gms.Triggers
 
@@ -125,18 +126,40 @@ def firingOrder (ordered : List Trig) : List Trig × List Trig :=
 
 /-! ### Statement-level firing (SQL correspondence) -/
 
+/-- A value as it is *written in a statement*, before conversion to the INT column type, in tenths:
+`26` is `2.6`, `-5` is `-0.5`, `30` is `3`. What a trigger sees (an audit cell) is in tenths too. -/
+abbrev Tenths := Int
+
+/-- Conversion of a numeric value to the INT column type (Go: `col.Type.Convert` in the conversion
+loop of `insertIter.Next`, and the same conversion inside `SetField` / integer arithmetic): round
+half away from zero. -/
+def roundT (x : Tenths) : Int := if 0 ≤ x then (x + 5) / 10 else -((5 - x) / 10)
+
 structure Row where
   a : Int
   b : Int
   deriving Repr, DecidableEq, Inhabited
 
-/-- One audit record: trigger name, OLD.a, OLD.b, NEW.a, NEW.b. -/
+/-- A row of values as written (`INSERT … VALUES (1, 2.6)`, `INSERT … SELECT x, y FROM src`). -/
+structure RawRow where
+  a : Tenths
+  b : Tenths
+  deriving Repr, DecidableEq, Inhabited
+
+/-- The row the table editor receives: every cell converted to the column type. -/
+def RawRow.stored (r : RawRow) : Row := ⟨roundT r.a, roundT r.b⟩
+/-- A stored row seen as values (exact). -/
+def Row.raw (r : Row) : RawRow := ⟨10 * r.a, 10 * r.b⟩
+def RawRow.integral (r : RawRow) : Bool := r.a % 10 == 0 && r.b % 10 == 0
+
+/-- One audit record: trigger name, OLD.a, OLD.b, NEW.a, NEW.b (in tenths: the audit columns are
+wide enough to show a value that was *not* converted to the column type). -/
 structure Audit where
   n : TName
-  oa : Option Int
-  ob : Option Int
-  na : Option Int
-  nb : Option Int
+  oa : Option Tenths
+  ob : Option Tenths
+  na : Option Tenths
+  nb : Option Tenths
   deriving Repr, DecidableEq, Inhabited
 
 inductive Event where
@@ -144,9 +167,14 @@ inductive Event where
   deriving Repr, DecidableEq, Inhabited
 
 def auditOf (t : Trig) (old new : Option Row) : Audit :=
-  { n := t.name, oa := old.map (·.a), ob := old.map (·.b), na := new.map (·.a), nb := new.map (·.b) }
+  { n := t.name, oa := old.map (10 * ·.a), ob := old.map (10 * ·.b), na := new.map (10 * ·.a), nb := new.map (10 * ·.b) }
 
-/-- BEFORE triggers on one row: each may change NEW.b, then records what it sees. -/
+/-- Audit record of an INSERT trigger that sees the (possibly unconverted) row `new`. -/
+def auditRaw (t : Trig) (new : RawRow) : Audit :=
+  { n := t.name, oa := none, ob := none, na := some new.a, nb := some new.b }
+
+/-- BEFORE triggers on one row (UPDATE / DELETE: rows of stored values): each may change NEW.b,
+then records what it sees. -/
 def runBefore : List Trig → Option Row → Option Row → List Audit → Option Row × List Audit
   | [], _, new, acc => (new, acc)
   | t :: ts, old, new, acc =>
@@ -154,6 +182,17 @@ def runBefore : List Trig → Option Row → Option Row → List Audit → Optio
       | some k, some r => some { r with b := r.b + k }
       | _, _ => new
     runBefore ts old new' (acc ++ [auditOf t old new'])
+
+/-- BEFORE INSERT triggers on one row of values as they arrive from the row source. `NEW.b` is
+typed INT: `NEW.b + k` is integer arithmetic on the converted operand and `SET` stores an INT, so
+after a `SET` the cell is integral; a cell no trigger assigned stays as written. -/
+def runBeforeRaw : List Trig → RawRow → List Audit → RawRow × List Audit
+  | [], new, acc => (new, acc)
+  | t :: ts, new, acc =>
+    let new' : RawRow := match t.setB with
+      | some k => { new with b := 10 * (roundT new.b + k) }
+      | none => new
+    runBeforeRaw ts new' (acc ++ [auditRaw t new'])
 
 def runAfter (ts : List Trig) (old new : Option Row) (acc : List Audit) : List Audit :=
   acc ++ ts.map (fun t => auditOf t old new)
@@ -165,8 +204,8 @@ namespace Gms.Triggers
 /-! ### One DML statement on a table `t(a PRIMARY KEY, b)` with an audit table -/
 
 inductive Dml where
-  | insert (rows : List Row)
-  | update (k : Int) (lo : Int)       -- UPDATE t SET b = b + k WHERE a >= lo
+  | insert (rows : List RawRow)
+  | update (k : Tenths) (lo : Int)    -- UPDATE t SET b = b + k WHERE a >= lo   (k as written, e.g. 1.6)
   | delete (lo : Int)                 -- DELETE FROM t WHERE a >= lo
   deriving Repr, DecidableEq, Inhabited
 
@@ -186,23 +225,31 @@ def insertSorted (r : Row) : List Row → List Row
   | [] => [r]
   | x :: xs => if r.a < x.a then r :: x :: xs else x :: insertSorted r xs
 
+/-- The row the BEFORE INSERT chain starts from. `early = true` (Spec, MySQL): the values are
+converted to the column types when the row is filled, before any trigger runs. `early = false`
+(Go): the row source's row reaches the BEFORE trigger executors as it is; the conversion happens
+in `insertIter.Next`, which is *below* the AFTER executors and *above* the BEFORE executors. -/
+def entryRow (early : Bool) (r : RawRow) : RawRow := if early then r.stored.raw else r
+
 /-- INSERT rows one after the other; stops at the first duplicate key. Returns (audit, table,
-failed?). `keepPartial` = what survives of the table on failure is decided by the caller. -/
-def insertRows (bf af : List Trig) : List Row → List Audit → List Row → List Audit × List Row × Bool
+failed?). Per row: BEFORE triggers (wrapping the source), `insertIter.Next` (conversion of every
+cell, then `inserter.Insert` of the *converted* row), AFTER triggers (wrapping the InsertInto
+node: their NEW is the row `insertIter.Next` returns — the converted, stored row). -/
+def insertRows (early : Bool) (bf af : List Trig) : List RawRow → List Audit → List Row → List Audit × List Row × Bool
   | [], au, tbl => (au, tbl, false)
   | r :: rs, au, tbl =>
-    let (new, au1) := runBefore bf none (some r) au
-    match new with
-    | none => (au1, tbl, false)
-    | some r' =>
-      if tbl.any (fun x => x.a == r'.a) then (au1, tbl, true)
-      else insertRows bf af rs (runAfter af none (some r') au1) (insertSorted r' tbl)
+    let (new, au1) := runBeforeRaw bf (entryRow early r) au
+    let r' := new.stored
+    if tbl.any (fun x => x.a == r'.a) then (au1, tbl, true)
+    else insertRows early bf af rs (runAfter af none (some r') au1) (insertSorted r' tbl)
 
-def updateRows (bf af : List Trig) (k lo : Int) : List Row → List Audit → List Audit × List Row
+/-- UPDATE: the SET expression is evaluated and converted to the column type (`SetField`) below
+the BEFORE executors, so BEFORE and AFTER triggers both see converted values. -/
+def updateRows (bf af : List Trig) (k : Tenths) (lo : Int) : List Row → List Audit → List Audit × List Row
   | [], au => (au, [])
   | r :: rs, au =>
     if lo ≤ r.a then
-      let (new, au1) := runBefore bf (some r) (some { r with b := r.b + k }) au
+      let (new, au1) := runBefore bf (some r) (some { r with b := roundT (10 * r.b + k) }) au
       let r' := new.getD r
       let (au2, rest) := updateRows bf af k lo rs (runAfter af (some r) (some r') au1)
       (au2, r' :: rest)
@@ -220,14 +267,15 @@ def deleteRows (bf af : List Trig) (lo : Int) : List Row → List Audit → List
       let (au2, rest) := deleteRows bf af lo rs au
       (au2, r :: rest)
 
-/-- Execute one statement given the ordered trigger list of its event. `atomic` = a failed
-statement leaves no trace (Spec); otherwise the audit rows written so far survive (Impl, memory
-backend: no savepoints). -/
-def execDml (atomic : Bool) (ordered : List Trig) (tbl : List Row) : Dml → StmtResult
+/-- Execute one statement given the ordered trigger list of its event. `spec = true`: a failed
+statement leaves no trace and inserted values are converted before the BEFORE triggers (Spec);
+`spec = false`: the audit rows written so far survive (memory backend: no savepoints) and BEFORE
+INSERT triggers see the values as written (Impl). -/
+def execDml (spec : Bool) (ordered : List Trig) (tbl : List Row) : Dml → StmtResult
   | .insert rows =>
     let (bf, af) := firingOrder ordered
-    let (au, tbl', failed) := insertRows bf af rows [] tbl
-    if failed then { outcome := .dupKey, audit := if atomic then [] else au, table := tbl }
+    let (au, tbl', failed) := insertRows spec bf af rows [] tbl
+    if failed then { outcome := .dupKey, audit := if spec then [] else au, table := tbl }
     else { outcome := .ok, audit := au, table := tbl' }
   | .update k lo =>
     let (bf, af) := firingOrder ordered
@@ -248,5 +296,11 @@ def stmtImpl (cap : Nat) (ts : List Trig) (tbl : List Row) (d : Dml) : StmtResul
 /-- Spec: MySQL order, each trigger once per affected row, statement atomic. `none`: ill-formed trigger set. -/
 def stmtSpec (ts : List Trig) (tbl : List Row) (d : Dml) : Option StmtResult :=
   (specOrder ts).map (fun o => execDml true o tbl d)
+
+/-- Region predicate of finding `before_insert_new_unconverted`: the statement inserts a value that
+the conversion to the column type changes, and a BEFORE trigger looks at the row. -/
+def unconvertedSeen (ordered : List Trig) : Dml → Bool
+  | .insert rows => !(befores ordered).isEmpty && rows.any (fun r => !r.integral)
+  | _ => false
 
 end Gms.Triggers
